@@ -48,7 +48,7 @@ func blockingOps(fn *ssa.Function) []blockOp {
 				out = append(out, blockOp{fn: fn, instr: x, kind: "send", sends: []string{desc(x.Chan)}, desc: desc(x.Chan) + "<-"})
 			case *ssa.UnOp:
 				if x.Op == token.ARROW {
-					out = append(out, blockOp{fn: fn, instr: x, kind: "recv", recvs: []string{desc(x.X)}, desc: "<-" + desc(x.X)})
+					out = append(out, blockOp{fn: fn, instr: x, kind: "recv", recvs: []string{timerChanDesc(x.X)}, desc: "<-" + desc(x.X)})
 				}
 			case *ssa.Select:
 				op := blockOp{fn: fn, instr: x, kind: "select", dflt: !x.Blocking, desc: desc(x)}
@@ -56,7 +56,7 @@ func blockingOps(fn *ssa.Function) []blockOp {
 					if st.Dir == types.SendOnly {
 						op.sends = append(op.sends, desc(st.Chan))
 					} else {
-						op.recvs = append(op.recvs, desc(st.Chan))
+						op.recvs = append(op.recvs, timerChanDesc(st.Chan))
 					}
 				}
 				out = append(out, op)
@@ -71,6 +71,21 @@ func blockingOps(fn *ssa.Function) []blockOp {
 		}
 	}
 	return out
+}
+
+// timerChanDesc: the channel's description, marked as a timer channel when it is the C field of a time.Timer or
+// time.Ticker whatever the variable holding the timer is called (such a receive always completes or is stopped).
+func timerChanDesc(ch ssa.Value) string {
+	d := desc(ch)
+	if u, ok := ch.(*ssa.UnOp); ok && u.Op == token.MUL {
+		if fa, ok := u.X.(*ssa.FieldAddr); ok && fieldName(fa.X.Type(), fa.Field) == "C" {
+			ts := strings.TrimPrefix(typeStr(fa.X.Type()), "*")
+			if ts == "time.Timer" || ts == "time.Ticker" {
+				return ts + ".C(" + d + ")"
+			}
+		}
+	}
+	return d
 }
 
 // opKey is a structural key: function + kind + channel fields involved (no positions).
